@@ -160,13 +160,20 @@ def run(rep, facts, tier):
     n_floor = 0
     inherit_bad = []
     for bb in co.reachable_blocks():
-        for st in co.blocks[bb]['stmts']:
-            if st['k'] != 'assign' or not any(isinstance(x, dict) and x.get('f') == 'ds_len' for x in st['lhs']['p']):
-                continue
-            v = expr_str(co.expr_of_rvalue(st['rv'], 0, frozenset()), -12)
+        # the current depth is read somewhere
+        t = co.blocks[bb]['term']
+        if t['k'] == 'call' and (callee_of(t) or '').endswith('::len') and 'data_stack' in expr_str(co.expr_of_operand(t['args'][0]), -6):
             n_floor += 1
-            if 'data_stack' in v:
+        for st in co.blocks[bb]['stmts']:
+            # a read of the enclosing context's floor: wherever its value ends up (a field assignment, a local that is moved into
+            # the Context literal), the block it sits in is the branch that decided to inherit
+            if st['k'] != 'assign' or st['rv']['k'] != 'use':
                 continue
+            pl = op_place(st['rv']['o'])
+            names = [x.get('f') for x in (pl or {}).get('p', []) if isinstance(x, dict)]
+            if not (pl and 'ctx' in names and names[-1:] == ['ds_len']):
+                continue
+            n_floor += 1
             excluded = False
             for (_, e, side) in guards_of(co, bb):
                 if isinstance(e, tuple) and e[0] == 'call' and 'cmp::PartialEq' in e[1] and 'ContextMode::MetaEval' in repr(e) \
@@ -174,7 +181,7 @@ def run(rep, facts, tier):
                     if (side if e[1].endswith('::ne') else not side):
                         excluded = True
             if not excluded:
-                inherit_bad.append((v[:40], st.get('at')))
+                inherit_bad.append(('(*arg1).ctx.ds_len', st.get('at')))
     rep.floor('C11.R1 assignments of the stack floor in context_open', n_floor, 2)
     rep.add('C11.R1', 'C11.R1:context_open:meta-floor-is-current-depth', not inherit_bad,
             'a meta context opens with the current depth as its floor' if not inherit_bad else
